@@ -1,11 +1,13 @@
 pub mod c01;
 pub mod c02;
 pub mod c03;
+pub mod c04;
 pub mod c06;
 pub mod c07;
 pub mod c08;
 pub mod c10;
 pub mod c11;
+pub mod c19;
 
 use crate::engine::Runner;
 
@@ -16,11 +18,13 @@ pub fn run(id: &str, r: &mut Runner) {
         "C01" => c01::run(r),
         "C02" => c02::run(r),
         "C03" => c03::run(r),
+        "C04" => c04::run(r),
         "C06" => c06::run(r),
         "C07" => c07::run(r),
         "C08" => c08::run(r),
         "C10" => c10::run(r),
         "C11" => c11::run(r),
+        "C19" => c19::run(r),
         _ => {
             println!("HARNESS-ERROR property {id} has no check yet");
             std::process::exit(2);
